@@ -318,8 +318,18 @@ func newWorld(kind string, maxConn, maxReq uint32) *world {
 }
 
 func (w *world) close() {
-	for _, m := range w.conns {
-		m.conn.Close(api.NoFlush, api.LocalClose)
+	// (guarded: closing a connection blocks for ever when a goroutine of MOSN is stuck holding one of its locks;
+	// that only happens on a broken tree, and the harness must still finish and report)
+	done := make(chan struct{})
+	go func() {
+		for _, m := range w.conns {
+			m.conn.Close(api.NoFlush, api.LocalClose)
+		}
+		close(done)
+	}()
+	select {
+	case <-done:
+	case <-time.After(3 * time.Second):
 	}
 	w.up.stop()
 }
